@@ -460,3 +460,96 @@ fn test_wright_omega() {
         assert!((err / z) < 1e-9);
     }
 }
+
+// ---------------------------------------------------------------------------
+// verification hooks (feature `verif-hooks`): add-only call-through wrappers
+// for the crate-private nonsymmetric-cone methods and read access to the
+// stored barrier derivatives.  No behaviour is added.
+// ---------------------------------------------------------------------------
+#[cfg(feature = "verif-hooks")]
+pub mod verif_hooks_expcone {
+    use super::*;
+
+    pub fn is_primal_feasible<T: FloatT>(k: &ExponentialCone<T>, s: &[T]) -> bool {
+        NonsymmetricCone::is_primal_feasible(k, s)
+    }
+    pub fn is_dual_feasible<T: FloatT>(k: &ExponentialCone<T>, z: &[T]) -> bool {
+        NonsymmetricCone::is_dual_feasible(k, z)
+    }
+    pub fn barrier_primal<T: FloatT>(k: &mut ExponentialCone<T>, s: &[T]) -> T {
+        NonsymmetricCone::barrier_primal(k, s)
+    }
+    pub fn barrier_dual<T: FloatT>(k: &mut ExponentialCone<T>, z: &[T]) -> T {
+        NonsymmetricCone::barrier_dual(k, z)
+    }
+    pub fn higher_correction<T: FloatT>(k: &mut ExponentialCone<T>, η: &mut [T], ds: &[T], v: &[T]) {
+        NonsymmetricCone::higher_correction(k, η, ds, v)
+    }
+    pub fn update_dual_grad_H<T: FloatT>(k: &mut ExponentialCone<T>, z: &[T]) {
+        NonsymmetricCone::update_dual_grad_H(k, z)
+    }
+    pub fn gradient_primal<T: FloatT>(k: &ExponentialCone<T>, s: &[T]) -> [T; 3] {
+        Nonsymmetric3DCone::gradient_primal(k, s)
+    }
+    pub fn use_dual_scaling<T: FloatT>(k: &mut ExponentialCone<T>, μ: T) {
+        Nonsymmetric3DConeUtils::use_dual_scaling(k, μ)
+    }
+    pub fn use_primal_dual_scaling<T: FloatT>(k: &mut ExponentialCone<T>, s: &[T], z: &[T]) {
+        Nonsymmetric3DConeUtils::use_primal_dual_scaling(k, s, z)
+    }
+    pub fn wright_omega<T: FloatT>(z: T) -> T {
+        _wright_omega(z)
+    }
+    pub fn grad<T: FloatT>(k: &ExponentialCone<T>) -> [T; 3] {
+        k.grad
+    }
+    pub fn z<T: FloatT>(k: &ExponentialCone<T>) -> [T; 3] {
+        k.z
+    }
+    pub fn H_dual<T: FloatT>(k: &ExponentialCone<T>) -> [T; 6] {
+        k.H_dual.data
+    }
+    pub fn Hs<T: FloatT>(k: &ExponentialCone<T>) -> [T; 6] {
+        k.Hs.data
+    }
+
+    // crate-private helpers shared by the nonsymmetric cones
+    pub fn backtrack_search_on<T: FloatT>(
+        dq: &[T], q: &[T], α_init: T, α_min: T, step: T, is_in_cone: impl Fn(&[T]) -> bool, work: &mut [T],
+    ) -> T {
+        backtrack_search(dq, q, α_init, α_min, step, is_in_cone, work)
+    }
+    pub fn newton_raphson_onesided_on<T: FloatT>(x0: T, f0: impl Fn(T) -> T, f1: impl Fn(T) -> T) -> T {
+        newton_raphson_onesided(x0, f0, f1)
+    }
+
+    // packed symmetric 3x3 type (crate-private): operations on the packed triu data
+    fn sym3<T: FloatT>(d: &[T; 6]) -> DenseMatrixSym3<T> {
+        DenseMatrixSym3 { data: *d }
+    }
+    pub fn sym3_mul<T: FloatT>(d: &[T; 6], x: &[T]) -> [T; 3] {
+        let mut y = [T::zero(); 3];
+        sym3(d).mul(&mut y, x);
+        y
+    }
+    pub fn sym3_quad_form<T: FloatT>(d: &[T; 6], y: &[T], x: &[T]) -> T {
+        sym3(d).quad_form(y, x)
+    }
+    pub fn sym3_norm_fro<T: FloatT>(d: &[T; 6]) -> T {
+        sym3(d).norm_fro()
+    }
+    pub fn sym3_index_linear(r: usize, c: usize) -> usize {
+        DenseMatrixSym3::<f64>::index_linear((r, c))
+    }
+    /// (success, packed factor as left by the routine)
+    pub fn sym3_cholesky_factor<T: FloatT>(d: &[T; 6]) -> (bool, [T; 6]) {
+        let mut L = DenseMatrixSym3::zeros();
+        let ok = L.cholesky_3x3_explicit_factor(&sym3(d));
+        (ok, L.data)
+    }
+    pub fn sym3_cholesky_solve<T: FloatT>(l: &[T; 6], b: &[T]) -> [T; 3] {
+        let mut x = [T::zero(); 3];
+        sym3(l).cholesky_3x3_explicit_solve(&mut x, b);
+        x
+    }
+}
